@@ -266,6 +266,119 @@ def gen_find_taskids(cls):
             "  | Err e => Err e\n  end.\n")
 
 
+def gen_find_tasks(cls):
+    f = method(cls, "find_tasks", ["start_deps"])
+    body = [ast.unparse(x) for x in f.body if not is_docstring_or_log(x)]
+    pats = ["if start_deps is None:\n    start_deps = self.rdeps",
+            "return [self.tasks[taskid] for taskid in self.find_taskids(start_deps)]"]
+    if body != pats:
+        raise Unsupported("Manager.find_tasks changed:\n" + "\n".join(body))
+    return ("Definition src_find_tasks (start_deps order : list K) (m : @mgr K A) : res (list (@task K A) * @mgr K A) :=\n"
+            "  match src_find_taskids start_deps order m with\n"
+            "  | Ok (taskids, m1) =>\n"
+            "      match lookup_tasks eqb (m_tasks m1) taskids with Ok l => Ok (l, m1) | Err e => Err e end\n"
+            "  | Err e => Err e\n  end.\n")
+
+
+# ------------------------------------------------------------------ data layer (GenTasksData.v)
+def find_class(tree, name):
+    c = next((n for n in tree.body if isinstance(n, ast.ClassDef) and n.name == name), None)
+    if c is None:
+        raise Unsupported(f"class {name} not found")
+    return c
+
+
+def body_src(f):
+    return [ast.unparse(x) for x in f.body if not is_docstring_or_log(x)]
+
+
+def gen_data(tasks):
+    out = []
+    # ---- ExprTask.__init__: which expression fills which field
+    et = find_class(tasks, "ExprTask")
+    init = method(et, "__init__", ["target", "expr"])
+    fields = {}
+    for st in [x for x in init.body if not is_docstring_or_log(x)]:
+        if not (isinstance(st, ast.Assign) and len(st.targets) == 1 and is_self_attr(st.targets[0])):
+            fail(st, "ExprTask.__init__ statement form not supported")
+        fields[st.targets[0].attr] = ast.unparse(st.value)
+    if sorted(fields) != ["dependencies", "expr", "targets", "taskid"]:
+        raise Unsupported(f"ExprTask.__init__ sets {sorted(fields)}")
+    val = {"target": "target", "expr": "expr", "target._get_dependencies()": "targets_order", "expr._get_dependencies()": "deps_order"}
+    for k, v in fields.items():
+        if v not in val:
+            raise Unsupported(f"ExprTask.__init__: self.{k} = {v} not supported")
+    kinds = {"taskid": ("target",), "expr": ("expr",), "targets": ("targets_order", "deps_order"), "dependencies": ("targets_order", "deps_order")}
+    for k, v in fields.items():
+        if val[v] not in kinds[k]:
+            raise Unsupported(f"ExprTask.__init__: self.{k} = {v} has the wrong kind")
+    out.append("(* ExprTask.__init__(target, expr); the two *_order arguments are the iteration orders of the sets\n"
+               "   target._get_dependencies() and expr._get_dependencies() *)\n"
+               "Definition src_exprtask_init (target : path) (expr : expr) (deps_order targets_order : list path) : dtask :=\n"
+               f"  mkTask {val[fields['taskid']]} {val[fields['targets']]} {val[fields['dependencies']]} (AExpr {val[fields['expr']]}).\n")
+    # ---- ExprTask.run
+    run = method(et, "run", [])
+    if body_src(run) != ["value = self.expr._get_value()", "self.taskid._set_value(value)"]:
+        raise Unsupported("ExprTask.run changed:\n" + "\n".join(body_src(run)))
+    out.append("Definition src_exprtask_run (self : dtask) (self_expr : expr) : DM unit :=\n"
+               "  dbind (d_get_value self_expr) (fun value =>\n  d_set_value_ref (t_id self) value).\n")
+    # ---- FunctionTask.run
+    ft = find_class(tasks, "FunctionTask")
+    run = method(ft, "run", [])
+    if body_src(run) != ["return self.action()"]:
+        raise Unsupported("FunctionTask.run changed:\n" + "\n".join(body_src(run)))
+    out.append("Definition src_functiontask_run (self_action : list (path * expr)) : DM unit :=\n  d_call_action self_action.\n")
+    # ---- LinearKnob.run, statement by statement
+    lk = find_class(tasks, "LinearKnob")
+    run = method(lk, "run", [])
+    stmts = [x for x in run.body if not is_docstring_or_log(x)]
+    term_parts, closes = [], 0
+    for st in stmts:
+        u = ast.unparse(st)
+        if u == "value = self.source._get_value()":
+            term_parts.append("dbind (d_get_number self_source) (fun value =>"); closes += 1
+        elif u == "delta = value - self.prev_value":
+            term_parts.append("dbind (d_get_prev (t_id self)) (fun self_prev_value =>\n  let delta := (value - self_prev_value)%Z in"); closes += 1
+        elif u == "for w, t in zip(self.weights, self.targets):\n    t._set_value(t._get_value() + w * delta)":
+            term_parts.append("dseq (d_for_zip self_weights_targets (fun w t =>\n    dbind (d_get_number t) (fun t_value => d_set_value_ref t (Leaf (t_value + w * delta)%Z))))\n  ("); closes += 1
+        elif u == "self.prev_value = value":
+            term_parts.append("dseq (d_set_prev (t_id self) value)\n  ("); closes += 1
+        else:
+            fail(st, "LinearKnob.run statement form not supported")
+    out.append("Definition src_linearknob_run (self : dtask) (self_source : path) (self_weights_targets : list (Z * path)) : DM unit :=\n  "
+               + "\n  ".join(term_parts) + "\n  dret tt" + ")" * closes + ".\n")
+    # ---- Manager.run_tasks / set_value (task.run() is dispatched on the task's class: a section variable)
+    mg = find_class(tasks, "Manager")
+    rt = method(mg, "run_tasks", ["tasks"])
+    if body_src(rt) != ["if tasks is None:\n    tasks = self.tasks.values()", "for task in tasks:\n    logger.info('Run %s', task)\n    task.run()"]:
+        raise Unsupported("Manager.run_tasks changed:\n" + "\n".join(body_src(rt)))
+    out.append("Section Dispatch.\nVariable task_run : dtask -> DM unit.     (* task.run(): dispatch on the class of the task *)\n\n"
+               "Definition src_run_tasks (tasks : list dtask) : DM unit :=\n  d_for_tasks tasks (fun task => task_run task).\n")
+    sv = method(mg, "set_value", ["ref", "value"])
+    parts, closes = [], 0
+    for st in [x for x in sv.body if not is_docstring_or_log(x)]:
+        u = ast.unparse(st)
+        if u == "if ref in self.tasks:\n    self.unregister(ref)":
+            parts.append("dseq (d_when (d_in_tasks ref) (d_call (src_unregister path_eqb ref)))\n  ("); closes += 1
+        elif u == "if isinstance(value, BaseRef):\n    self.register(ExprTask(ref, value))\n    value = value._get_value()":
+            parts.append("dbind (d_if_isref value (fun value deps_order targets_order =>\n"
+                         "           dseq (d_call (src_register path_eqb (src_exprtask_init ref value deps_order targets_order)))\n"
+                         "                (d_get_value value)))\n  (fun value =>"); closes += 1
+        elif u == "ref._set_value(value)":
+            parts.append("dseq (d_set_value_ref ref value)\n  ("); closes += 1
+        elif u == "self.run_tasks(self.find_tasks(ref._get_dependencies()))":
+            parts.append("dseq (dbind (d_query (src_find_tasks path_eqb sd_order start_order)) (fun tasks => src_run_tasks tasks))\n  ("); closes += 1
+        else:
+            fail(st, "Manager.set_value statement form not supported")
+    out.append("(* sd_order: iteration order of the set ref._get_dependencies(); start_order: of the start set in find_taskids *)\n"
+               "Definition src_set_value (ref : path) (value : vsrc) (sd_order start_order : list path) : DM unit :=\n  "
+               + "\n  ".join(parts) + "\n  dret tt" + ")" * closes + ".\n\nEnd Dispatch.\n")
+    return "\n".join(out)
+
+
+OUT2 = os.path.join(VERIF, "coq", "gen", "GenTasksData.v")
+
+
 def main():
     try:
         refs = ast.parse(open(os.path.join(REPO, "xdeps", "refs.py")).read())
@@ -291,6 +404,8 @@ def main():
         f = method(cls, "unfreeze_tree", [])
         parts.append(f"Definition src_unfreeze_tree : @M K A :=\n  {m_block(f.body, {})}.\n")
         parts.append(gen_find_taskids(cls))
+        parts.append(gen_find_tasks(cls))
+        data = gen_data(tasks)
     except (Unsupported, OSError, SyntaxError) as e:
         print("gen_tasks: cannot translate: " + str(e))
         return 1
@@ -303,6 +418,13 @@ def main():
            + "\n".join(parts) + "\nEnd Gen.\n")
     if not os.path.exists(OUT) or open(OUT).read() != txt:
         open(OUT, "w").write(txt)
+    txt2 = ("(* GENERATED by tools/py2v/gen_tasks.py from xdeps/tasks.py — do not edit.\n"
+            "   Data-layer methods; see model/TasksSemData.v for the combinators. *)\n"
+            "From Coq Require Import List Bool Arith ZArith NArith.\n"
+            "From XD Require Import lib.ListAux lib.Toposort model.Manager model.ManagerData model.TasksSem model.TasksSemData gen.GenTasks.\n"
+            "Import ListNotations.\n\n" + data)
+    if not os.path.exists(OUT2) or open(OUT2).read() != txt2:
+        open(OUT2, "w").write(txt2)
     return 0
 
 
